@@ -108,3 +108,7 @@ def replay(case):
     gd = {"nodes": gd["nodes"], "di": gd["di"], "bi": gd["bi"]}
     for via in ("outcomes", "identify"):
         run_case(_C(), gg.to_nx(gd), gd, {"X": case["X"], "Y": case["Y"]}, via=via)
+
+
+def install_for_suite():
+    mon_id.install(semantic=False)
